@@ -1,6 +1,7 @@
 package main
 
 import (
+	"golang.org/x/tools/go/ssa"
 	"go/types"
 	"strings"
 )
@@ -164,6 +165,47 @@ func runC12(c *Ctx) {
 	p := c.P
 	tickGuardTables(c, "tick-guard-table")
 	tickingHandleTable(c, "progress-retick")
+	// the dedup guard may be dropped only with respect to the recorded tick time
+	if hf, nf := p.Field("modeling", "TickScheduler", "hasScheduledTick"), p.Field("modeling", "TickScheduler", "nextTickTime"); hf == nil || nf == nil {
+		c.Unknown("guard-clear", "modeling.TickScheduler.hasScheduledTick", 0, "anchor not found")
+	} else {
+		bad := ""
+		for _, fn := range p.SrcFuncs(func(pp string) bool { return pp == pkgPath("modeling") }) {
+			for _, b := range fn.Blocks {
+				for _, in := range b.Instrs {
+					st, ok := in.(*ssa.Store)
+					if !ok {
+						continue
+					}
+					if fo := FieldOf(st.Addr); fo == nil || !sameObj(fo, hf) {
+						continue
+					}
+					cst, isC := st.Val.(*ssa.Const)
+					if !isC || cst.Value == nil || cst.Value.String() != "false" {
+						continue // restored from a snapshot, or set
+					}
+					if _, fresh := memRoot(st.Addr).(*ssa.Alloc); fresh {
+						continue // initialising a scheduler under construction
+					}
+					cond := false
+					for _, fact := range FactsAt(b) {
+						for v := range DataSlice(fn, fact.Cond) {
+							if u, isU := v.(*ssa.UnOp); isU {
+								if fo := FieldOf(u.X); fo != nil && sameObj(fo, nf) {
+									cond = true
+								}
+							}
+						}
+					}
+					if !cond {
+						bad += SSAFuncKey(fn) + " (" + p.Rel(st.Pos()) + "); "
+					}
+				}
+			}
+		}
+		c.Check(bad == "", "guard-clear", "modeling.TickScheduler.hasScheduledTick", 0, "the tick dedup guard is never dropped without comparing against the recorded tick time",
+			"the tick dedup guard is cleared unconditionally in "+bad+"a tick event for a later edge may still be queued, so the next wake-up schedules a second tick for that edge and the component ticks twice in one instant")
+	}
 	// who may build tick events
 	mk := p.LookupFunc("modeling", "", "MakeTickEvent")
 	if mk == nil {
@@ -286,6 +328,7 @@ func edHandle(c *Ctx, rule string) {
 
 func runC09(c *Ctx) {
 	p := c.P
+	progressHonestRule(c, "progress-honest", libComponentPkg, 100)
 	// (1) guard consumption
 	edHandle(c, "guard-consumption")
 	if f := c.fn("guard-consumption", "modeling", "TickingComponent", "Handle"); f != nil {
@@ -396,6 +439,7 @@ func directTickProgress(c *Ctx, rule string) {
 
 func runC10(c *Ctx) {
 	p := c.P
+	progressHonestRule(c, "progress-honest", func(pp string) bool { return pp == pkgPath("noc/directconnection") }, 1)
 	dom := []int{0, 1, 2}
 	gpn := p.LookupFunc("noc/directconnection", "ports", "getPortByName")
 	if f := c.fn("forward-table", "noc/directconnection", "middleware", "forwardMany"); f != nil {
